@@ -53,7 +53,10 @@ def general_case(s):
     w = common.import_wntr()
     try:
         wn = simnet.build(w, s)
-        ru, _ = simnet.run_wntr(w, wn, HW_approx=s["hw"])
+        try:
+            ru, _ = simnet.run_wntr(w, wn, HW_approx=s["hw"])
+        except (RuntimeError, ValueError):
+            return None      # the uninterrupted run itself cannot be solved (ill-posed valve arrangement, ...): C16's business
         if ru.error_code is not None:
             return None
         wn2 = simnet.build(w, s)
